@@ -20,12 +20,14 @@ CONSTANTS
     Fns = {fns}
     UseData = FALSE
     ForwardRefs = {fwd}
+    WithJac = {jac}
     EmitOn = TRUE
 INIT Init
 NEXT Next
 INVARIANT Emit
 INVARIANT OrderInvariant
 INVARIANT UntouchedZero
+INVARIANT JacIsDerivative
 CHECK_DEADLOCK FALSE
 """
 
@@ -44,7 +46,8 @@ def generate(ctx: Ctx, rep: Report, parts: list[dict]) -> list[dict]:
     for j, part in enumerate(parts):
         cfg = ctx.write_cfg(f"ModelEval_cg{j}.cfg", CFG.format(
             maxv=part["maxv"], maxd=part["maxd"], maxr=part["maxr"], maxia=part["maxia"], maxiv=part.get("maxiv", 0),
-            maxc=part["maxc"], fns=fnset(part["fns"]), fwd="TRUE" if part["fwd"] else "FALSE"))
+            maxc=part["maxc"], fns=fnset(part["fns"]), fwd="TRUE" if part["fwd"] else "FALSE",
+            jac="TRUE" if part.get("jac") else "FALSE"))
         if part.get("exhaustive"):
             res = ctx.tlc("ModelEval.tla", str(cfg), tag=f"cg{j}")
             what = "exhaustive"
